@@ -1,4 +1,5 @@
 import MlModel.Model.Resume
+import MlModel.Model.ResumeChain
 /-!
 # Counter-examples for C10 (`decide`d instances on the executable model)
 
@@ -86,6 +87,37 @@ theorem C10_F12_witness :
         (ParRun.init _ (0, 0) twoShards) f12Sched).toOption.map
       fun r => (r.delivered, r.lost, r.s.buf, r.s.agg.2)) =
       some ([0, 1, 2, 6, 7, 8, 9, 15, 16, 17, 18, 19], [3, 4, 5, 10, 11, 12, 13, 14], [], 12) := by
+  decide
+
+/-! ### the seeded regression `C10-m3-chain-restore-drops-head-stage`
+
+`from_state` rewritten as `append(upstream)` + `reversed(...)` with a walk that never advances
+(`ChainIt.walkStuck`).  For one and two stages it is the correct walk — which is why a check that
+only builds chains of two stages cannot see it; for three stages the restored `_iterators` is
+`[b', b', c']` and the head stage's aggregate is no longer reported. -/
+
+theorem C10_m3_walk_agrees_upto_two_witness :
+    (ChainIt.walkStuck 1 0 [0]).toOption = (ChainIt.walk 1 0 [0]).toOption ∧
+    (ChainIt.walkStuck 2 1 [0]).toOption = (ChainIt.walk 2 1 [0]).toOption ∧
+    (ChainIt.walk 2 1 [0]).toOption = some [1, 0] := by decide
+
+theorem C10_m3_walk_three_witness :
+    (ChainIt.walkStuck 3 2 [0]).toOption = some [1, 1, 0] ∧
+    (ChainIt.walk 3 2 [0]).toOption = some [2, 1, 0] := by decide
+
+def threeStages : List (Stage Nat Nat (Nat × Nat) (Nat × Nat)) :=
+  [⟨"c", fun x => [x + 3], sumCount, fun b => [b], true⟩,
+   ⟨"b", fun x => [x * 2], sumCount, fun b => [b], true⟩,
+   ⟨"a", fun x => [x + 1], sumCount, fun b => [b], true⟩]
+
+/-- `agg_state` of a drained 3-stage chain over `range(3)` as reported through a correctly tracked
+chain and through the `[b', b', c']` of the regression: stage `a` is missing (and `b` is listed
+twice before the dict collapses it) -/
+theorem C10_m3_aggstate_witness :
+    let top := (takeN (chainRec (seqRec (List.range 3)) threeStages) 100
+      (chainFresh (seqRec (List.range 3)) threeStages (Src.root 3).iterate)).2
+    ChainIt.aggState _ threeStages ⟨top, [2, 1, 0]⟩ = [("a", (6, 3)), ("b", (12, 3)), ("c", (21, 3))] ∧
+    ChainIt.aggState _ threeStages ⟨top, [1, 1, 0]⟩ = [("b", (12, 3)), ("b", (12, 3)), ("c", (21, 3))] := by
   decide
 
 end MlModel.Witness.C10
